@@ -24,6 +24,7 @@ var funcMap = template.FuncMap{
 	"int_array":           intArray,
 	"int_array_columns":   intArrayColumns,
 	"str_literal":         strconv.Quote,
+	"line_comment":        lineComment,
 	"stringify":           stringify,
 	"title":               strings.Title,
 	"lower":               strings.ToLower,
@@ -106,6 +107,11 @@ func allCasts(g *grammar.Grammar) []*CastInfo {
 		}
 	}
 	return ret
+}
+
+// lineComment keeps a text on the line of a // comment.
+func lineComment(s string) string {
+	return strings.NewReplacer("\n", `\n`, "\r", `\r`).Replace(s)
 }
 
 func stringify(s string) string {
